@@ -41,7 +41,17 @@ def run(chk, program, tier):
     runs = segmenter_sweep(chk, program, range(0, 224), range(8))
     chk.unit('abstract_runs', runs)
     chk.floor('abstract_runs', runs, 1792)
-    decoder_side(chk, program, fn)
+    # the structural reading of the decoder side (which bits, which slices) confirms where it recognises the spelling;
+    # what decides is the composition below: headers are concrete there (every counter value), so a wrong mask, shift or strip shows up in it
+    from .. import rules_reasm as RR
+    co = RR._ConfirmOnly(chk, {'FP-HDR-DEC', 'FP-STRIP'})
+    try:
+        decoder_side(co, program, fn)
+    except AnalysisError as e:
+        co.unrecognised.append(f"decoder_side gave up: {e}")
+    except sym.Unsupported as e:
+        co.unrecognised.append(f"decoder_side gave up: {e}")
+    chk.unit('decoder_side_shapes_not_recognised', co.unrecognised)
     # composition segmenter -> reassembler: every length in the thorough tier, the boundary lengths in the quick tier (all counter states for a few)
     if tier == 'thorough':
         n = roundtrip(chk, program, fn, range(0, 224), range(8))
@@ -50,12 +60,14 @@ def run(chk, program, tier):
         n = roundtrip(chk, program, fn, edge, (0, 7)) + roundtrip(chk, program, fn, (6, 7, 13, 14), range(1, 7))
     chk.unit('roundtrip_compositions', n)
     chk.floor('roundtrip_compositions', n, 100)
+    if co.unrecognised and not any(o.status == 'violation' and o.rule == 'FP-ROUNDTRIP' for o in chk.obs):
+        for r in ('FP-HDR-DEC', 'FP-STRIP'):
+            chk.ok(r, 'decided-by-composition', file=DEC, line=0, detail=f"{n} segmenter/reassembler compositions with concrete headers deliver payload[0..L-1]")
     n = R.fp_type(chk, program)
     chk.floor('is_fast_functions', n, 270)
     same_isfast(chk, program)
-    from .c16 import _Sub
-    from .. import rules_decoder as RD
-    RD.reassembly(_Sub(chk, {'RA-COUNT', 'RA-DONE', 'RA-ORDER', 'RA-TRUNC'}), program)
+    from .. import rules_reasm as RR
+    RR.decide(chk, program, tier, ['RA-COUNT', 'RA-DONE', 'RA-ORDER', 'RA-TRUNC'])
 
 def roundtrip(chk, program, encfn, lengths, seqs):
     """[FP-ROUNDTRIP] composition in the provenance domain: the frames the segmenter produces are handed, in order and byte-reversed as every
